@@ -276,15 +276,15 @@ pub fn gen_aag(rng: &mut Rng, cfg: &PCfg, size: usize) -> Doc {
             0 => {}
             1 => {
                 d.raw(b" ");
-                d.tok(TokKind::Text, b"0");
+                d.tok(TokKind::LatchInit { own: v as u128, max: max_lit as u128 }, b"0");
             }
             2 => {
                 d.raw(b" ");
-                d.tok(TokKind::Text, b"1");
+                d.tok(TokKind::LatchInit { own: v as u128, max: max_lit as u128 }, b"1");
             }
             _ => {
                 d.raw(b" ");
-                d.tok(TokKind::Text, v.to_string().as_bytes());
+                d.tok(TokKind::LatchInit { own: v as u128, max: max_lit as u128 }, v.to_string().as_bytes());
             }
         }
         d.raw(b"\n");
@@ -371,15 +371,15 @@ pub fn gen_aig(rng: &mut Rng, cfg: &PCfg, size: usize) -> Doc {
             0 => {}
             1 => {
                 d.raw(b" ");
-                d.tok(TokKind::Text, b"0");
+                d.tok(TokKind::LatchInit { own: code as u128, max: max_lit as u128 }, b"0");
             }
             2 => {
                 d.raw(b" ");
-                d.tok(TokKind::Text, b"1");
+                d.tok(TokKind::LatchInit { own: code as u128, max: max_lit as u128 }, b"1");
             }
             _ => {
                 d.raw(b" ");
-                d.tok(TokKind::Text, code.to_string().as_bytes());
+                d.tok(TokKind::LatchInit { own: code as u128, max: max_lit as u128 }, code.to_string().as_bytes());
             }
         }
         d.raw(b"\n");
